@@ -31,7 +31,7 @@ import (
 // ops that reach driver goroutines
 func isChildOp(op string) bool {
 	switch strings.SplitN(op, " ", 2)[0] {
-	case "hs", "hsnoauth", "disclose", "hsx", "newsession", "nocred", "disclose2", "sesscfg":
+	case "hs", "hsnoauth", "disclose", "hsx", "newsession", "nocred", "disclose2", "sesscfg", "mon":
 		return true
 	}
 	return false
@@ -286,7 +286,7 @@ func parseScenario(op string) scenario {
 		return scenario{mode: "startup", static: "none", prov: "-", script: w[1:]}
 	case "disclose":
 		return scenario{mode: "startup", static: w[1], prov: "-", script: []string{"sup", "auth:" + w[2], "succ"}}
-	case "hsx", "nocred", "newsession", "sesscfg":
+	case "hsx", "nocred", "newsession", "sesscfg", "mon":
 		h, err := strconv.Atoi(kv(w[1], "host"))
 		if err != nil {
 			panic("bad host")
@@ -603,6 +603,11 @@ func format(op string, r raw) string {
 			return fmt.Sprintf("refused:both dials=%d", r.dials)
 		}
 		return fmt.Sprintf("accepted dials=%d", r.dials)
+	case "mon":
+		if r.fatal != "" {
+			return r.fatal
+		}
+		return monitor(parseScenario(op), r)
 	case "hsnoauth":
 		return pre + ready + " credentials-sent=" + credSent(r)
 	case "nocred":
@@ -616,4 +621,162 @@ func format(op string, r raw) string {
 		return pre + "none"
 	}
 	return "bad-op"
+}
+
+// ---------- property monitors on the observed trace of one connection attempt (op `mon`)
+
+// credentialsFor: who supplies the credentials for the dialled host, as documented (AuthProvider = per-host factory,
+// otherwise the static Authenticator): kind = none | err | pw | cu, tok = the authenticator token
+func credentialsFor(sc scenario) (kind, tok string) {
+	tok = sc.static
+	if sc.prov != "-" {
+		tok = "nil"
+		dflt, found := "nil", false
+		for _, e := range strings.Split(sc.prov, "/") {
+			kv := strings.SplitN(e, "=", 2)
+			if kv[0] == strconv.Itoa(sc.host) {
+				tok, found = kv[1], true
+			}
+			if kv[0] == "*" {
+				dflt = kv[1]
+			}
+		}
+		if !found {
+			tok = dflt
+		}
+	}
+	switch {
+	case tok == "err" || strings.HasSuffix(tok, "+err"):
+		return "err", tok
+	case tok == "nil" || tok == "none":
+		return "none", tok
+	}
+	return tok[:2], tok
+}
+
+func chalPayload(f string) (string, bool) {
+	if f == "chal" {
+		return "78", true
+	}
+	if strings.HasPrefix(f, "chal:") {
+		return f[5:], true
+	}
+	return "", false
+}
+
+func isPrefix(a, b []string) bool {
+	if len(a) > len(b) {
+		return false
+	}
+	for i := range a {
+		if a[i] != b[i] {
+			return false
+		}
+	}
+	return true
+}
+
+// monitor returns `ok` or `VIOLATED:<clause>`; written from the property statement and the documented roles of
+// Authenticator / AuthProvider, not from the driver's code.
+func monitor(sc scenario, r raw) string {
+	kind, tok := credentialsFor(sc)
+	var tokens []string
+	for _, s := range r.sent {
+		if strings.HasPrefix(s, "authresp:") {
+			tokens = append(tokens, s[len("authresp:"):])
+		}
+	}
+	demanded := len(sc.script) >= 2 && sc.script[0] == "sup" && strings.HasPrefix(sc.script[1], "auth:")
+	// the provider is asked exactly once, for the host being dialled; never when none is configured
+	wantProv := "-"
+	if sc.prov != "-" {
+		wantProv = strconv.Itoa(sc.host)
+	}
+	if list(r.prov) != wantProv {
+		return "VIOLATED:provider-calls=" + list(r.prov)
+	}
+	if kind == "err" {
+		if len(r.sent) != 0 || len(r.calls) != 0 || r.outcome != "err:provider" {
+			return "VIOLATED:provider-error-not-final"
+		}
+		return "ok"
+	}
+	// never an unauthenticated session
+	if demanded && r.outcome == "ready" {
+		succ := false
+		for _, f := range sc.script[2:] {
+			succ = succ || f == "succ" || strings.HasPrefix(f, "succ:")
+		}
+		if len(tokens) == 0 || !succ {
+			return "VIOLATED:unauthenticated-session"
+		}
+	}
+	switch kind {
+	case "none":
+		if len(tokens) != 0 || len(r.calls) != 0 {
+			return "VIOLATED:credentials-without-authenticator"
+		}
+		if demanded && (r.outcome != "err:auth-required" || list(r.sent) != "options,startup") {
+			return "VIOLATED:auth-demanded-without-credentials"
+		}
+		if r.outcome == "ready" && !(len(sc.script) >= 2 && sc.script[0] == "sup" && sc.script[1] == "rdy") {
+			return "VIOLATED:ready-without-READY"
+		}
+	case "pw":
+		p := strings.Split(tok, ":")
+		allowed := parseList(p[3])
+		if len(allowed) == 0 {
+			allowed = defaults
+		}
+		okClass := false
+		if demanded {
+			cls := string(mustHex(sc.script[1][5:]))
+			for _, a := range allowed {
+				okClass = okClass || a == cls
+			}
+		}
+		plain := vh.Hex(append(append(append([]byte{0}, mustHex(p[1])...), 0), mustHex(p[2])...))
+		for _, t := range tokens {
+			if !okClass || t != plain {
+				return "VIOLATED:password-disclosure"
+			}
+		}
+	case "cu":
+		p := strings.Split(tok, ":")
+		var resps []string
+		if p[1] != "none" {
+			for _, rt := range strings.Split(p[1], ",") {
+				resps = append(resps, strings.Split(rt, ".")[0])
+			}
+		}
+		if !isPrefix(tokens, resps) {
+			return "VIOLATED:tokens-not-from-authenticator"
+		}
+		var reqs, want []string
+		nsucc := 0
+		for _, c := range r.calls {
+			if strings.HasPrefix(c, "c:") {
+				reqs = append(reqs, c[2:])
+			} else {
+				nsucc++
+			}
+		}
+		if demanded {
+			want = append(want, sc.script[1][5:])
+			for _, f := range sc.script[2:] {
+				d, ok := chalPayload(f)
+				if !ok {
+					break
+				}
+				want = append(want, d)
+			}
+		}
+		if !isPrefix(reqs, want) {
+			return "VIOLATED:challenge-requests"
+		}
+		if p[2] == "1" && nsucc > 0 && r.outcome == "ready" {
+			return "VIOLATED:success-error-ignored"
+		}
+	}
+	return "ok"
 }
